@@ -46,3 +46,13 @@ func zzHbReq(seq uint32) *message.HeartbeatRequest {
 func zzAssocReqNoNode(seq uint32) *message.AssociationSetupRequest {
 	return message.NewAssociationSetupRequest(seq, ie.NewRecoveryTimeStamp(time.Unix(1700000000, 0)))
 }
+
+func zzMarshal(m message.Message) []byte {
+	b := make([]byte, m.MarshalLen())
+	if err := m.MarshalTo(b); err != nil {
+		panic("zzMarshal: " + err.Error())
+	}
+	return b
+}
+
+func zzDuration(ns int64) time.Duration { return time.Duration(ns) }
